@@ -354,6 +354,29 @@ def execute(plan, choice, tmpdir, trace):
         func = f"{m[-1][1]}" if m else "?"
         crashed = {"class": "exception", "site": f"{type(e).__name__}@{func}", "message": repr(e) + " " + tb[-500:]}
         viol.append(crashed)
+    if crashed is None and not viol and len(plan["lines"]) >= 2 and plan["index_source"] == "built":
+        # the file is rewritten with other content of the SAME byte size (lines in reversed order) and a NEW object is
+        # created for the same path: nothing remembered about the old content may leak into it
+        stats["rewritten"] = 1
+        lines2 = list(reversed(plan["lines"]))
+        body = "\n".join(lines2) + ("\n" if plan["final_nl"] else "")
+        if lines2[-1] == "" and not plan["final_nl"]:
+            body += "\n"
+        with open(path, "wb") as f:
+            f.write(body.encode("utf-8"))
+        ref2 = body.split("\n")
+        if body.endswith("\n") or body == "":
+            ref2 = ref2[:-1]
+        try:
+            obj2 = (cls(path, make_record_class()) if is_record else cls(path))
+            with obj2:
+                got2 = [unwrap(x) for x in obj2]
+                idx2 = [unwrap(obj2[i]) for i in range(len(obj2))]
+            if got2 != ref2 or idx2 != ref2:
+                viol.append({"class": "wrong-text", "site": "new-object-after-rewrite",
+                             "message": f"a new object on the rewritten file (same size) reads {got2[:4]} / {idx2[:4]}, expected {ref2[:4]}"})
+        except Exception as e:  # noqa
+            viol.append({"class": "exception", "site": f"new-object-after-rewrite:{type(e).__name__}", "message": repr(e)})
     leaked = len(set(os.listdir("/proc/self/fd")) - fds_before)
     if leaked and crashed is None:
         viol.append({"class": "resource", "site": "descriptor-leak",
